@@ -66,6 +66,7 @@ class World:
         self.names = self.graph.leaf_names + self.graph.node_names
         self._name_of = {id(self.t[n]): n for n in self.names}
         ranks = sched["ranks"]
+        seams.next_world()
         seams.set_ranks([(self.t[n], ranks[n] + twin_offset) for n in self.names if n in ranks])
         self._salt = int(sched.get("discover_salt", 0))
         self._keep = []  # keeps every .grad we ever saw alive -> ids are never recycled
